@@ -48,6 +48,33 @@ fn ieee_f1_scale_in_range_4096() {
     assert!(((x * n as f64) as usize) < n);
 }
 #[kani::proof]
+fn ieee_f1_scale_in_range_2p27() {
+    // the same for 1 <= n <= 2^27 (covers every size ProbOrdMinHash2 accepts); about 20 minutes of CBMC time: thorough tier only
+    let x: f64 = kani::any();
+    let n: usize = kani::any();
+    kani::assume(x >= 0.0 && x < 1.0 && n >= 1 && n <= (1usize << 27));
+    assert!(((x * n as f64) as usize) < n);
+}
+#[kani::proof]
+fn ieee_mul_one() {
+    // x * 1 == x for every non-NaN x (used by ProbMinHash3a, which compares winv itself where ProbMinHash3 compares winv * 1)
+    let a: f64 = kani::any();
+    kani::assume(!a.is_nan());
+    assert!(a * (1i32 as f64) == a);
+    assert!(!(a * (1i32 as f64) < a));
+}
+#[kani::proof]
+fn ieee_f4_add_nonneg() {
+    // x + y*g >= x for finite x, y, g >= 0 with y*g finite (the step of the additive point streams of ProbMinHash2 / ProbOrdMinHash2)
+    let x: f64 = kani::any();
+    let y: f64 = kani::any();
+    let g: f64 = kani::any();
+    kani::assume(x >= 0.0 && y >= 0.0 && g >= 0.0 && x.is_finite() && y.is_finite() && g.is_finite());
+    let p = y * g;
+    kani::assume(p.is_finite());
+    assert!(x + p >= x);
+}
+#[kani::proof]
 fn ieee_f5_ratio_small() {
     // 0 <= c <= n, 1 <= n <= 2^24: 0 <= c/n <= 1 and n/n == 1 (f64 quotient of exactly converted integers)
     let c: u32 = kani::any();
